@@ -46,7 +46,17 @@ MatrixSpellings ==
                            "m.secret.send", "m.key.verification.request", "m.key.verification.start", "m.key.verification.cancel"},
     CancelCode |-> {"m.user", "m.timeout", "m.unknown_transaction", "m.unknown_method", "m.unexpected_message", "m.key_mismatch",
                     "m.user_mismatch", "m.invalid_message", "m.accepted"},
-    RoomVersionId |-> {"1", "2", "3", "4", "5", "6", "7", "8", "9", "10", "11"} ]
+    RoomVersionId |-> {"1", "2", "3", "4", "5", "6", "7", "8", "9", "10", "11"},
+    \* error codes of the client-server API ("Standard error response" and the endpoint-specific codes)
+    ErrorCode |-> {"M_FORBIDDEN", "M_UNKNOWN_TOKEN", "M_MISSING_TOKEN", "M_BAD_JSON", "M_NOT_JSON", "M_NOT_FOUND", "M_LIMIT_EXCEEDED",
+                   "M_UNRECOGNIZED", "M_UNKNOWN", "M_UNAUTHORIZED", "M_USER_DEACTIVATED", "M_USER_IN_USE", "M_INVALID_USERNAME",
+                   "M_ROOM_IN_USE", "M_INVALID_ROOM_STATE", "M_THREEPID_IN_USE", "M_THREEPID_NOT_FOUND", "M_THREEPID_AUTH_FAILED",
+                   "M_THREEPID_DENIED", "M_SERVER_NOT_TRUSTED", "M_UNSUPPORTED_ROOM_VERSION", "M_INCOMPATIBLE_ROOM_VERSION",
+                   "M_BAD_STATE", "M_GUEST_ACCESS_FORBIDDEN", "M_CAPTCHA_NEEDED", "M_CAPTCHA_INVALID", "M_MISSING_PARAM",
+                   "M_INVALID_PARAM", "M_TOO_LARGE", "M_EXCLUSIVE", "M_RESOURCE_LIMIT_EXCEEDED", "M_CANNOT_LEAVE_SERVER_NOTICE_ROOM",
+                   "M_WEAK_PASSWORD", "M_UNABLE_TO_AUTHORISE_JOIN", "M_UNABLE_TO_GRANT_JOIN", "M_BAD_ALIAS", "M_DUPLICATE_ANNOTATION",
+                   "M_NOT_YET_UPLOADED", "M_CANNOT_OVERWRITE_MEDIA", "M_WRONG_ROOM_KEYS_VERSION", "M_URL_NOT_SET", "M_BAD_STATUS",
+                   "M_CONNECTION_FAILED", "M_CONNECTION_TIMEOUT", "M_THREEPID_MEDIUM_NOT_SUPPORTED"} ]
 TableEnums == DOMAIN MatrixSpellings
 
 \* ---- laws (r is one observation; aliases is the set of declared alias spellings)
